@@ -332,3 +332,102 @@ Section TypedReal.
     intros _ _ D I I'. rewrite <- D. apply (LP.tampered_is_rejected_real rest H structural); rewrite ?D; assumption.
   Qed.
 End TypedReal.
+
+(* ------------------------------------------------------------------------------------------ *)
+(* 4: edits of the text that leave no trace                                                    *)
+(* ------------------------------------------------------------------------------------------ *)
+(* the text whose members are permuted / extended by members no field listens to is read to the same
+   typed document: same content (also the same failure, when the reading fails) *)
+Lemma member_order_no_trace E fuel h fs m m2 : Permutation m m2 ->
+  doc_of (reenc E fuel (TyStruct h fs) (TObj m2)) = doc_of (reenc E fuel (TyStruct h fs) (TObj m)).
+Proof. intros P. f_equal. now apply struct_member_order_irrelevant. Qed.
+
+Lemma unknown_members_no_trace E fuel h fs m1 x m2 :
+  (forall kv n, In kv x -> In n (map f_name fs ++ hook_names h) -> fold_eq (fst kv) n = false) ->
+  members_in_domain (map f_name fs ++ hook_names h) (m1 ++ x ++ m2) = true ->
+  doc_of (reenc E fuel (TyStruct h fs) (TObj (m1 ++ x ++ m2))) = doc_of (reenc E fuel (TyStruct h fs) (TObj (m1 ++ m2))).
+Proof. intros U M. f_equal. now apply ignores_unknown_members. Qed.
+
+(* hence the same canonical bytes, the same digest, the same verdict of the envelope that holds it *)
+Lemma with_same_doc {rest} (e : V.envelope content rest) d : d = V.e_doc e -> V.with_doc e d = e.
+Proof. intros ->. destruct e; reflexivity. Qed.
+
+Section NoTrace.
+  Variable rest : Type.
+  Variable canon : content -> bytes.
+  Variable H : bytes -> bytes.
+  Variable structural : V.envelope content rest -> bool.
+  Notation validate := (V.validate content rest canon H structural).
+  Notation digest_of := (V.digest_of content canon H).
+
+  Lemma same_reading_same_verdict x x2 r r2 (e : V.envelope content rest) :
+    x2 = x -> x = Ok r -> x2 = Ok r2 -> V.e_doc e = content_of r ->
+    content_of r2 = content_of r /\
+    canon (content_of r2) = canon (content_of r) /\
+    digest_of (content_of r2) = digest_of (content_of r) /\
+    validate (V.with_doc e (content_of r2)) = validate e.
+  Proof.
+    intros -> -> X D. inversion X; subst r2. repeat split. rewrite with_same_doc; auto.
+  Qed.
+
+  Lemma member_order_keeps_verdict E fuel h fs m m2 r r2 (e : V.envelope content rest) :
+    Permutation m m2 ->
+    reenc E fuel (TyStruct h fs) (TObj m) = Ok r -> reenc E fuel (TyStruct h fs) (TObj m2) = Ok r2 ->
+    V.e_doc e = content_of r ->
+    content_of r2 = content_of r /\
+    canon (content_of r2) = canon (content_of r) /\
+    digest_of (content_of r2) = digest_of (content_of r) /\
+    validate (V.with_doc e (content_of r2)) = validate e.
+  Proof.
+    intros P. apply same_reading_same_verdict. now apply struct_member_order_irrelevant.
+  Qed.
+
+  Lemma unknown_members_keep_verdict E fuel h fs m1 x m2 r r2 (e : V.envelope content rest) :
+    (forall kv n, In kv x -> In n (map f_name fs ++ hook_names h) -> fold_eq (fst kv) n = false) ->
+    members_in_domain (map f_name fs ++ hook_names h) (m1 ++ x ++ m2) = true ->
+    reenc E fuel (TyStruct h fs) (TObj (m1 ++ m2)) = Ok r ->
+    reenc E fuel (TyStruct h fs) (TObj (m1 ++ x ++ m2)) = Ok r2 ->
+    V.e_doc e = content_of r ->
+    content_of r2 = content_of r /\
+    canon (content_of r2) = canon (content_of r) /\
+    digest_of (content_of r2) = digest_of (content_of r) /\
+    validate (V.with_doc e (content_of r2)) = validate e.
+  Proof.
+    intros U M. apply same_reading_same_verdict. now apply ignores_unknown_members.
+  Qed.
+End NoTrace.
+
+(* the same for a document of a registered schema whose Go type is a struct, with the fuel the runner
+   computes from each tree (the two trees may differ in depth: that fuel is enough, Marshal/EnvProofs.v) *)
+Lemma schema_struct_transfer id n h fs j j2 r :
+  assoc id go_schemas = Some (TyRef n) -> assoc n go_types = Some (TyStruct h fs) ->
+  (forall f, reenc go_env f (TyStruct h fs) j2 = reenc go_env f (TyStruct h fs) j) ->
+  reenc_schema id j = Ok r -> reenc_schema id j2 = Ok r.
+Proof.
+  intros A B X. unfold reenc_schema at 1. rewrite A.
+  destruct (fuel_for j) as [|f]; [discriminate|]. rewrite reenc_eq.
+  change (e_types go_env) with go_types. rewrite B. intros R. rewrite <- X in R.
+  apply (reenc_schema_fuel_enough id (TyRef n) j2 (S f) r A).
+  rewrite reenc_eq. change (e_types go_env) with go_types. rewrite B. exact R.
+Qed.
+
+Lemma schema_member_order_no_trace id n h fs m m2 r :
+  assoc id go_schemas = Some (TyRef n) -> assoc n go_types = Some (TyStruct h fs) ->
+  Permutation m m2 ->
+  (reenc_schema id (TObj m2) = Ok r <-> reenc_schema id (TObj m) = Ok r).
+Proof.
+  intros A B P. split; apply (schema_struct_transfer id n h fs _ _ r A B); intros f.
+  - symmetry. now apply struct_member_order_irrelevant.
+  - now apply struct_member_order_irrelevant.
+Qed.
+
+Lemma schema_unknown_members_no_trace id n h fs m1 x m2 r :
+  assoc id go_schemas = Some (TyRef n) -> assoc n go_types = Some (TyStruct h fs) ->
+  (forall kv k, In kv x -> In k (map f_name fs ++ hook_names h) -> fold_eq (fst kv) k = false) ->
+  members_in_domain (map f_name fs ++ hook_names h) (m1 ++ x ++ m2) = true ->
+  (reenc_schema id (TObj (m1 ++ x ++ m2)) = Ok r <-> reenc_schema id (TObj (m1 ++ m2)) = Ok r).
+Proof.
+  intros A B U M. split; apply (schema_struct_transfer id n h fs _ _ r A B); intros f.
+  - symmetry. now apply ignores_unknown_members.
+  - now apply ignores_unknown_members.
+Qed.
